@@ -109,8 +109,16 @@ func checkC03(c CaseC03) (*vkit.Failure, vkit.Meta) {
 			}
 			runOnce := func(release []int, delays map[string]int) result {
 				tr := &hookTrace{live: map[uintptr]map[uintptr]bool{}}
-				compose.SetVerifHook(func(point, node string, tm, task uintptr, ov int) {
+				env := gkit.NewEnv("c03")
+				compose.SetVerifHook(func(hctx context.Context, point, node string, tm, task uintptr, ov int) {
 					atomic.AddInt64(&c03Progress, 1)
+					if hctx != nil && gkit.EnvOf(hctx) != env {
+						// a straggler of an earlier run or case (a node that does not lead to END may outlive its run)
+						for i := 0; i < delays[point]; i++ {
+							runtime.Gosched()
+						}
+						return
+					}
 					tr.mu.Lock()
 					if ov > tr.maxOv {
 						tr.maxOv = ov
@@ -138,7 +146,6 @@ func checkC03(c CaseC03) (*vkit.Failure, vkit.Meta) {
 					}
 				})
 				defer compose.SetVerifHook(nil)
-				env := gkit.NewEnv("c03")
 				env.MaxRunsPerNode = 400
 				env.Hook = func(context.Context, *gkit.NodeSpec, string, string) { atomic.AddInt64(&c03Progress, 1) }
 				out, rerr, ov := runGated(ctx, r, env, CaseGraph{Spec: c.Spec, Input: in, Paradigm: c.Paradigm}, release)
